@@ -27,6 +27,18 @@ MUTANTS = {
         ('err-lists', 'dashlive/server/requesthandler/media_requests.py', "        if content_type == 'audio':\n            errs = options.audioErrors", "        if content_type == 'video':\n            errs = options.audioErrors"),
         ('err-count-4xx', 'dashlive/server/requesthandler/media_requests.py', "                    code >= 500 and\n                    options.failureCount is not None and\n                    self.increment", "                    code >= 400 and\n                    options.failureCount is not None and\n                    self.increment"),
     ],
+    'C10': [
+        ('init-mehd-vod', 'dashlive/server/requesthandler/media_requests.py', "        if mode == 'live':\n            try:\n                # remove the mehd box", "        if mode != 'live':\n            try:\n                # remove the mehd box"),
+        ('init-clear-pssh', 'dashlive/server/requesthandler/media_requests.py', "        atom = self.load_fragment(media, 0, options)\n        if representation.encrypted:", "        atom = self.load_fragment(media, 0, options)\n        if representation.kids:"),
+        ('init-first-drm-only', 'dashlive/server/requesthandler/media_requests.py', "                    pssh = drm.moov(representation.default_kid)\n                    atom.moov.append_child(pssh)", "                    pssh = drm.moov(representation.default_kid)\n                    atom.moov.append_child(pssh)\n                    break"),
+        ('init-wrong-kid', 'dashlive/server/requesthandler/media_requests.py', "                    pssh = drm.moov(representation.default_kid)", "                    pssh = drm.moov(representation.kids[0])"),
+        ('pr-moov-loc', 'dashlive/drm/playready.py', "        if DrmLocation.MOOV in locations:\n            moov = generate_pssh_box", "        if DrmLocation.CENC in locations:\n            moov = generate_pssh_box"),
+        ('pr-cenc-piff', 'dashlive/drm/playready.py', "        if DrmLocation.CENC in locations and version > 1.0:", "        if DrmLocation.CENC in locations and version >= 1.0:"),
+        ('ck-moov-loc', 'dashlive/drm/clearkey.py', "        if DrmLocation.MOOV in locations:\n            moov = generate_pssh_box", "        if DrmLocation.CENC in locations:\n            moov = generate_pssh_box"),
+        ('pr-pssh-single', 'dashlive/drm/playready.py', "        if len(keys) < 2:\n            return mp4.ContentProtectionSpecificBox(", "        if len(keys) < 4:\n            return mp4.ContentProtectionSpecificBox("),
+        ('ck-pssh-v0', 'dashlive/drm/clearkey.py', "            version=1,\n            flags=0,\n            system_id=self.RAW_PSSH_SYSTEM_ID,", "            version=0,\n            flags=0,\n            system_id=self.RAW_PSSH_SYSTEM_ID,"),
+        ('ck-pssh-data', 'dashlive/drm/clearkey.py', "            key_ids=keys,\n            data=None)", "            key_ids=keys,\n            data=b'')"),
+    ],
     'C20': [
         ('seek-no-upper-clamp', 'dashlive/utils/buffered_reader.py', '            self.pos = min(self.pos, self.size)\n', '            pass\n'),
         ('seek-end-sign', 'dashlive/utils/buffered_reader.py', '            self.pos = self.size + offset\n', '            self.pos = self.size - offset\n'),
